@@ -8,8 +8,18 @@ on dense lattice clusters; the Coq model re-splits every oversize group itself
 (asplit) and the monitor decides, leaf by leaf, that the implementation's links
 are admissible for the leaf's range and have the cost of the verified optimum
 with that range as null cost; SubnetOversizeException iff the model raises.
+
+Tie (route T, adaptive glue): tools/py2coq_adaptive.py re-translates the CURRENT source of
+adaptive_link_wrap (linking.py), split_subnet (subnet.py) and subnet_linker_drop (subnetlinker.py)
+into coq/Gen/adaptive.v before the proofs are re-checked; Proofs/AdaptiveGen.v / AdaptiveGen2.v prove
+the generated functions equal to the hand-written models (asplit_g / msplit / drop_links) and restate
+the headline theorems for them (C12_generated_*, C03_generated_*).  A translation failure or a failing
+re-proof is reported through chk.proof_broken and the correspondence run continues, so that a concrete
+failing input is still searched for.  In addition the generated functions are executed (exact
+rationals) next to the real adaptive_link_wrap over subnet_linker_drop on constructed subnets: same
+raise, same links, same forward_cands left behind, and the same as the model predicts.
 """
-import numpy as np, json
+import numpy as np, json, os, sys, hashlib
 from fractions import Fraction
 import common, linkgen
 from common import cnat, cZ
@@ -24,6 +34,72 @@ CODES[3] = 'a sub-group is not solved optimally for its reduced range'
 CODES[5] = 'implementation returned labels although a still-oversize group reached a range <= adaptive_stop (model raises)'
 CODES[8] = 'SubnetOversizeException raised although every oversize group can be split above adaptive_stop'
 CODES[10] = 'model out of fuel'
+
+TRANSLATOR = os.path.join(common.VERIF, 'tools', 'py2coq_adaptive.py')
+GEN = os.path.join(common.COQ, 'Gen', 'adaptive.v')
+STATE = dict(gen_ok=False)
+
+
+# ---- route T: translator / build ----------------------------------------------------------
+def regenerate(chk):
+    """re-run tools/py2coq_adaptive.py on the CURRENT source (common.REPO); returns (ok, text-or-log)"""
+    rc, out = common.sh([sys.executable, TRANSLATOR, '--repo', common.REPO, '--stdout'], timeout=60)
+    if rc != 0:
+        return False, out
+    with common.Lock(os.path.join(common.COQ, '.build.lock')):
+        old = open(GEN).read() if os.path.exists(GEN) else None
+        if old != out:
+            os.makedirs(os.path.dirname(GEN), exist_ok=True)
+            tmp = GEN + '.tmp%d' % os.getpid()
+            with open(tmp, 'w') as f:
+                f.write(out)
+            os.replace(tmp, GEN)
+            chk.tally('Gen/adaptive.v rewritten (source differs from last run)')
+        else:
+            chk.tally('Gen/adaptive.v unchanged')
+    return True, out
+
+
+def ensure_vo(chk, targets, report):
+    """make the given .vo files (needed by the correspondence run even when a proof of the cone is broken)"""
+    with common.Lock(os.path.join(common.COQ, '.build.lock')):
+        rc, out = common.sh('timeout 600 make -j8 %s 2>&1 | tail -40' % ' '.join(targets), timeout=630, cwd=common.COQ)
+        for t in targets:
+            vo = os.path.join(common.COQ, t)
+            if not (os.path.exists(vo) and os.path.getmtime(vo) >= os.path.getmtime(vo[:-1])):
+                if report:
+                    chk.proof_broken(report, out)
+                return False
+    return True
+
+
+MODEL_VO = ['Model/LinkCheck.vo', 'Model/Adaptive.vo']
+
+
+def build(chk):
+    """translator -> cone of Properties/C12.v.  A translation failure or a failing re-proof is reported through
+    chk.proof_broken; the correspondence run continues either way so that a concrete failing input is still searched for."""
+    STATE['gen_ok'] = False
+    ok, text = regenerate(chk)
+    if not ok:
+        chk.proof_broken('translation tools/py2coq_adaptive.py (adaptive_link_wrap / split_subnet / subnet_linker_drop left the translatable subset)', text)
+        chk.build = dict(obligations=0, discharged=0, assumptions=[], files=[], theorems=[])
+        ensure_vo(chk, MODEL_VO, None)
+        return False
+    for attempt in range(3):
+        b = chk.coq()
+        if open(GEN).read() == text:
+            break
+        # another run (different TRACKPY_REPO) rewrote the generated file in between: redo
+        chk.violations = [v for v in chk.violations if not v[0].startswith('proof:')]
+        regenerate(chk)
+    chk.notes.append('Gen/adaptive.v sha1 %s generated from %s' % (hashlib.sha1(text.encode()).hexdigest()[:12], common.REPO))
+    if not b['ok']:
+        ensure_vo(chk, MODEL_VO, None)
+    STATE['gen_ok'] = ensure_vo(chk, ['Model/AdaptiveGenCheck.vo'], 'Gen/adaptive.v / Model/AdaptiveGenCheck.v (generated adaptive glue does not build)') \
+        and open(GEN).read() == text
+    return bool(b['ok'])
+
 
 STEPS = [Fraction(1, 2), Fraction(3, 4), Fraction(7, 8), Fraction(15, 16)]
 STOPS = [Fraction(1, 8), Fraction(5, 16), Fraction(1, 2), Fraction(9, 16), Fraction(3, 4), Fraction(29, 32), Fraction(31, 32)]
@@ -165,9 +241,99 @@ def corpus():
     return [c1, c2]
 
 
+# ---- generated adaptive glue (route T) next to the real functions and the model -----------------------------
+GENA_IMPORTS = "From TP Require Import Model.Assign Model.AdaptiveGenCheck."
+GENA_FUNC = "check_gen_adaptive"
+GENA_CODES = {0: 'ok',
+              41: 'the generated adaptive_link_wrap / split_subnet / subnet_linker_drop (translated from the current source) make other links than the real functions (translator or vocabulary unfaithful)',
+              42: 'the generated split_subnet leaves other forward_cands in the source points than the real one',
+              43: 'the generated functions raise another exception / run out of fuel',
+              44: 'the real adaptive_link_wrap raised SubnetOversizeException, the generated one returned',
+              45: 'the generated adaptive_link_wrap differs from the model asplit_g over py_splitter on this input (contradicts C12_generated_adaptive_is_model)'}
+
+
+def gen_sub_graph(rng, tier):
+    """one subnet as a candidate graph: perfect-square costs (sqrt exact), sorted candidate lists, no null candidate"""
+    ns = rng.randint(1, 6 if tier == 'quick' else 8)
+    nd = rng.randint(1, 6 if tier == 'quick' else 8)
+    R = rng.choice([4, 8, 8, 16])
+    srcs = []
+    for i in range(ns):
+        ds = [d for d in range(nd) if rng.random() < 0.6][:8]
+        srcs.append(sorted([(d, rng.randint(0, R) ** 2) for d in ds], key=lambda x: x[1]))
+    return dict(srcs=srcs, nd=nd, R=R, step=str(rng.choice(STEPS)), stop_rel=str(rng.choice(STOPS)), max_size=rng.choice([1, 1, 2, 2, 3, 4, 30]))
+
+
+def run_gen_adaptive(g):
+    """the real adaptive_link_wrap over subnet_linker_drop; None when it raised SubnetOversizeException, else
+    (links sorted by source, forward_cands left in every source point)"""
+    import math
+    from trackpy.linking import linking as L, subnetlinker as sl
+    from trackpy.linking.utils import Point, SubnetOversizeException
+    Point.reset_counter()
+    dps = [Point(1, (float(j),)) for j in range(g['nd'])]
+    sps = []
+    for i, cs in enumerate(g['srcs']):
+        p = Point(0, (float(i),))
+        p.forward_cands = [(dps[d], math.sqrt(c)) for d, c in cs]
+        sps.append(p)
+    spos = {id(p): k for k, p in enumerate(sps)}
+    dpos = {id(p): k for k, p in enumerate(dps)}
+    try:
+        used = sorted({d for cs in g['srcs'] for d, _ in cs})        # a subnet's destination set = the candidates of its sources
+        spl, dpl = L.adaptive_link_wrap(set(sps), set(dps[d] for d in used), float(g['R']), sl.subnet_linker_drop,
+                                        adaptive_stop=float(g['R'] * Fraction(g['stop_rel'])), adaptive_step=float(Fraction(g['step'])),
+                                        max_size=g['max_size'])
+    except SubnetOversizeException:
+        return None
+    links = sorted([[spos[id(s)], None if d is None else dpos[id(d)]] for s, d in zip(spl, dpl) if s is not None], key=lambda x: x[0])
+    fcs = [[[dpos[id(dp)], int(round(dist ** 2))] for dp, dist in p.forward_cands] for p in sps]
+    return links, fcs
+
+
+def gen_adaptive_term(g, impl):
+    cq = lambda x: "(Qmake (%d)%%Z %d%%positive)" % (Fraction(x).numerator, Fraction(x).denominator)
+    cand = lambda d, c: "(Some %s, %s)" % (cnat(d), cZ(c))
+    srcs = common.clist([common.clist([cand(d, c) for d, c in cs]) for cs in g['srcs']])
+    step, rel = Fraction(g['step']), Fraction(g['stop_rel'])
+    nums = "(%s, %s, %s)" % (cq(g['R']), cq(step), cq(g['R'] * rel))
+    ints = "(%s, %s, %s, %s, %s)" % (cZ(g['R'] ** 2), cZ(step.numerator), cZ(step.denominator), cZ(rel.numerator), cZ(rel.denominator))
+    if impl is None:
+        it = 'None'
+    else:
+        links, fcs = impl
+        it = "(Some (%s, %s))" % (common.clist(["(%s, %s)" % (cnat(s), 'None' if d is None else '(Some %s)' % cnat(d)) for s, d in links]),
+                                  common.clist([common.clist([cand(d, c) for d, c in cs]) for cs in fcs]))
+    used = sorted({d for cs in g['srcs'] for d, _ in cs})
+    return "(%s, %s, %s, %s, %s, %s)" % (srcs, common.clist([cnat(j) for j in used]), nums, ints, cnat(g['max_size']), it)
+
+
+def gen_harness(chk):
+    """executes Gen/adaptive.v (when it builds) next to the real code and next to the model"""
+    if not STATE['gen_ok']:
+        chk.tally('generated adaptive glue not executable (translation / build failed): generated-code harness skipped')
+        return
+    n = 150 if chk.tier == 'quick' else 4000
+    terms, cases = [], []
+    for k in range(n):
+        g = gen_sub_graph(chk.rng, chk.tier)
+        try:
+            impl = run_gen_adaptive(g)
+        except Exception as e:
+            chk.violation('adaptive_link_wrap over subnet_linker_drop: exception', 'adaptive_link_wrap raised %r' % e, dict(kind='genadaptive', graph=g)); continue
+        terms.append(gen_adaptive_term(g, impl)); cases.append((g, impl))
+        chk.tally('generated adaptive glue vs the real functions' + (' (raised)' if impl is None else ''))
+    res = common.coq_eval_lists(chk.work, GENA_IMPORTS, GENA_FUNC, terms, tag='genadaptive')
+    for (g, impl), r in zip(cases, res):
+        chk.count(('genadaptive', g), len(g['srcs']) > g['max_size'])
+        if r != 0:
+            chk.violation('generated adaptive glue: %s' % GENA_CODES.get(r, r), 'adaptive_link_wrap / Gen.adaptive: %s' % GENA_CODES.get(r, r),
+                          dict(kind='genadaptive', code=r, graph=g, impl=impl))
+
+
 def run(chk):
     common.quiet_trackpy()
-    chk.coq()
+    build(chk)
     n = 150 if chk.tier == 'quick' else 5000
     cases = corpus()
     for k in range(n):
@@ -221,15 +387,37 @@ def run(chk):
             chk.violation('adaptive link_iter: reduced range off the ladder', why, dict(kind='adaptive', code=20, case=jsonable(c, out), ranges=ranges, decimal=True))
     if metas:
         chk.sample(jsonable(metas[0][0], metas[0][1]))
+    # the generated adaptive glue (route T), executed
+    gen_harness(chk)
     chk.coverage['rule'] = ("dense lattice clusters + sparse walkers, 1-3 D, MAX_SUB_NET_SIZE_ADAPTIVE in 2..5, adaptive_step in {1/2,3/4,7/8,15/16} (exact in binary), "
                             "adaptive_stop/search_range in a dyadic set, memory 0-2, strategies recursive/nonrecursive/numba; non-trivial = a group exceeded the limit so the split or the raise was exercised")
     chk.assumptions += ["as C02", "isotropic search_range only (per-axis ranges divide coordinates by non-dyadic floats: boundary decisions of the split are then not exact)",
-                        "adaptive_step restricted to binary fractions so that the reduced ranges are exact floats; cases with a pair within 1e-9 of a reduced range are skipped and counted"]
+                        "adaptive_step restricted to binary fractions so that the reduced ranges are exact floats; cases with a pair within 1e-9 of a reduced range are skipped and counted",
+                        "Gen/adaptive.v is produced by tools/py2coq_adaptive.py (trusted translator, fail-closed; subset and conventions in its docstring, vocabulary in "
+                        "Model/PyAdaptive.v): points are indices, sets are lists passed by value (a callee's pop() is not seen by the caller), candidate distances are carried as "
+                        "their exact squares, ranges are an abstract number type (theorems: any type agreeing with the model's integer tests on the ladder; instance: exact rationals), "
+                        "recursion on explicit fuel; the translation is exercised by exact comparison of the generated adaptive_link_wrap / split_subnet / subnet_linker_drop with "
+                        "the real functions (links, raise, forward_cands left behind) on constructed subnets"]
 
 
 def replay(chk, path):
     common.quiet_trackpy()
-    chk.coq()
+    build(chk)
+    rp0 = json.load(open(path))['replay']
+    if rp0.get('kind') == 'genadaptive':
+        if not STATE['gen_ok']:
+            print('replay: generated adaptive glue not executable'); return
+        g = rp0['graph']
+        g['srcs'] = [[tuple(x) for x in cs] for cs in g['srcs']]
+        impl = run_gen_adaptive(g)
+        r = common.coq_eval_lists(chk.work, GENA_IMPORTS, GENA_FUNC, [gen_adaptive_term(g, impl)])[0]
+        chk.count(('genadaptive', g), True)
+        print('replay: real adaptive_link_wrap over subnet_linker_drop', impl, 'code', r, GENA_CODES.get(r))
+        if r != 0:
+            chk.violation('generated adaptive glue: %s' % GENA_CODES.get(r, r), GENA_CODES.get(r, r), dict(kind='genadaptive', code=r, graph=g, impl=impl))
+        return
+    if rp0.get('kind') == 'proof-or-correspondence-broken':
+        print('replay: nothing executable in this replay file (proof/correspondence breakage): see its log field'); return
     cj = json.load(open(path))['replay']['case']
     frames = [np.array(f, dtype=float).reshape(len(f), -1) for f in cj['frames']]
     ndim = max([f.shape[1] for f in frames if f.size] or [1])
